@@ -55,6 +55,15 @@ Definition leave_ns (s : sim) : sim * feedback :=
   | [] => (mkSim [] s.(cur_ns) s.(guard) s.(strict), FbNone)   (* debug_assert!(false) in the code; proved unreachable *)
   | n :: r => (mkSim (n :: r) n s.(guard) s.(strict), FbCdata (negb (ns_eqb n Html)))
   end.
+(* breakout from foreign content (13.2.6.5): directly nested foreign roots are left at once -- entries are popped while
+   the one below the top is not Html (and more than two remain), then the top *)
+Fixpoint drop_foreign (st : list ns) : list ns :=
+  match st with
+  | top :: ((prev :: (_ :: _)) as r) => if ns_eqb prev Html then st else drop_foreign r
+  | _ => st
+  end.
+Definition leave_foreign (s : sim) : sim * feedback :=
+  leave_ns (mkSim (drop_foreign s.(ns_stack)) s.(cur_ns) s.(guard) s.(strict)).
 Definition text_type_adjust (h : N) : feedback :=
   let T := tt_at tt_get_text_type_adjustment in
   if T 0 h then FbSwitch RCData else if T 1 h then FbSwitch PlainText
@@ -66,7 +75,7 @@ Definition is_ip_enter (s : sim) (h : N) : bool :=
   ns_eqb s.(cur_ns) Svg && is_html_ip_svg h || ns_eqb s.(cur_ns) MathML && is_text_ip_mathml h.
 
 Definition fb_start_foreign (s : sim) (h : N) : sim * feedback :=
-  if causes_foreign_content_exit h then leave_ns s
+  if causes_foreign_content_exit h then leave_foreign s
   else if is_ip_enter s h then (s, FbRequest RqIntegrationPoint)
   else if tt_at tt_get_feedback_for_start_tag_in_foreign_content 0 h then (s, FbRequest RqFont)
   else if (h =? EMPTY_HASH)%N && ns_eqb s.(cur_ns) MathML then (s, FbRequest RqAnnotationStart)
@@ -102,7 +111,7 @@ Definition check_ip_exit (s : sim) (h : N) : sim * feedback :=
 Definition fb_end (s : sim) (h : N) : sim * feedback :=
   let s := if s.(strict) then mkSim s.(ns_stack) s.(cur_ns) (guard_track_end s.(guard) h) s.(strict) else s in
   if ns_eqb s.(cur_ns) Html then check_ip_exit s h
-  else if should_leave_ns s h then leave_ns s else (s, FbNone).
+  else if should_leave_ns s h then (if tt_at tt_should_leave_ns 2 h then leave_foreign s else leave_ns s) else (s, FbNone).
 
 (* RequestLexeme callbacks; [part] slices the chunk *)
 Definition run_request (part : range -> bytes) (k : req_kind) (s : sim) (t : tag_outline) : sim * feedback :=
@@ -111,7 +120,7 @@ Definition run_request (part : range -> bytes) (k : req_kind) (s : sim) (t : tag
   | RqFont, StartTagO _ _ _ attrs _ =>
       if existsb (fun a => let n := part a.(a_name) in
                            eq_ci n (bs "color") || eq_ci n (bs "size") || eq_ci n (bs "face")) attrs
-      then leave_ns s else (s, FbNone)
+      then leave_foreign s else (s, FbNone)
   | RqAnnotationStart, StartTagO n _ _ attrs sc =>
       if negb sc && eq_ci (part n) (bs "annotation-xml") then
         if existsb (fun a => eq_ci (part a.(a_name)) (bs "encoding") &&
